@@ -119,6 +119,18 @@ def cases(seed, tier):
         out.append({"group": "smooth", "seed": sub_seed(seed, "c12sms", i), "n": rng.choice([24, 33, 64, 100]),
                     "fam": ["cos", "sinm", "expm", "rat"][i % 4], "form": FORMS[(i // 4) % len(FORMS)],
                     "dtype": "float64", "xl": xl, "xu": xu})
+    # ---- directed: intervals that are tiny relative to their distance from the origin (|x|/L up to 1e6), both orientations; small n so
+    # that the conditioning of the mapped variable (error ~ k^2 eps |x|/L) stays far below the tolerance 5000 eps (1 + k |x|/L)
+    far = [(1.0, 1.0 + 1e-6), (1000.0, 1000.005), (3e-9, 8e-9), (-5.0e4, -5.0e4 + 0.01), (10.0 + 37 / 2.0 ** 14, 10.0 + 38 / 2.0 ** 14),
+           (123.456, 123.456 + 2e-5), (-1.0 - 3e-7, -1.0)]
+    k = 0
+    for (a, b) in far:
+        for n in (1, 2, 3, 5, 8):
+            for form in (FORMS if not quick else FORMS[(k % 2)::2]):
+                xl, xu = (a, b) if k % 3 else (b, a)
+                out.append({"group": "legvec", "seed": sub_seed(seed, "c12far", k), "n": n, "dtype": "float64", "form": form, "xl": xl, "xu": xu,
+                            "far": True})
+                k += 1
     # ---- infinite ranges
     N = 160 if quick else 2000
     for i in range(N):
